@@ -173,14 +173,103 @@ def run(ctx, rep, tier):
                     rep.violation("option-panic", "parse(%r) panics: %s" % (text, d.get("panic")), dict(input=text))
             if len(samples) < 6:
                 samples.append(dict(frame=" ".join(frame), slot_words=["-true", "-depth", "-threads NN"] + (["-maxdepth NN", "-mindepth NN"] if with_limits else [])))
+    n_emit = thread_emission(B, rep)
     cov = B.coverage_common()
+    cov["thread_count_emission"] = dict(obligations=n_emit, explanation="scheme::compile + CompiledExpression::scheme executed (MIR, both profiles) "
+                                        "with RunOptions { depth: symbolic bool, threads: None | Some(symbolic u32) }; z3 proves that the last "
+                                        "argument of the emitted (lipe-scan ...) call is the decimal rendering of exactly that u32, or "
+                                        "(lipe-getopt-thread-count) when no count was requested")
     cov.update(explanation="parse() executed symbolically (MIR) on expression frames whose option slots hold a symbolically selected "
                "option word with symbolic two-digit values; z3 decides last-wins options, tree equality with the option-free "
                "spelling (also executed by M), absence of Global nodes and absence of panics",
                bounds=dict(frames=len(frames), slots_per_frame="1..2", option_value_digits=2), samples=samples,
-               outside="thread-count emission into the scan call (checked with the code generator properties); more than two option slots",
+               outside="more than two option slots; option values of more than two digits on the parse side (the emission side covers every u32)",
                evaluations=len(rep.queries), distinct_nontrivial=len(rep.queries))
     rep.coverage = cov
+
+
+def scan_thread_argument(items):
+    """the rope items of the last argument of (lipe-scan ...): what follows (lipe-getopt-required-attrs)"""
+    marker = [ord(c) for c in "(lipe-getopt-required-attrs)"]
+    idx = None
+    for i in range(len(items) - len(marker) + 1):
+        if all(isinstance(items[i + j], int) and items[i + j] == marker[j] for j in range(len(marker))):
+            idx = i + len(marker)
+    if idx is None:
+        return None
+    rest = list(items[idx:])
+    while rest and isinstance(rest[0], int) and chr(rest[0]).isspace():
+        rest.pop(0)
+    arg = []
+    depth = 0
+    for it in rest:
+        if isinstance(it, int):
+            c = chr(it)
+            if c == "(":
+                depth += 1
+            elif c == ")":
+                if depth == 0:
+                    break
+                depth -= 1
+            elif c.isspace() and depth == 0:
+                break
+        arg.append(it)
+    return arg
+
+
+def thread_emission(B, rep):
+    from .trees import compile_tree, render
+    n = 0
+    default = [ord(c) for c in "(lipe-getopt-thread-count)"]
+    for profile in ("dev", "rel"):
+        some = z3.Bool("thr_some_" + profile)
+        val = z3.BitVec("thr_val_" + profile, 32)
+        depth = z3.Bool("depth_" + profile)
+        threads = Union([(some, Adt("Option", "Some", [val])), (z3.Not(some), Adt("Option", "None"))])
+        opts = Struct("RunOptions", ("depth", "threads"), (depth, threads))
+        tree = Adt("Expression", "Test", [Adt("Test", "True")])
+        cr = compile_tree(B, tree, opts, profile)
+        bad = False
+        for g, cv in cr.alts:
+            if isinstance(cv, Panic) or not is_ok(cv):
+                bad = b_or(bad, g)
+                continue
+            for g2, ce in flatten_value(cv.fields[0]):
+                items = render(B, cr, ce)
+                arg = scan_thread_argument(items)
+                gg = b_and(g, g2)
+                if arg is None:
+                    bad = b_or(bad, gg)
+                elif len(arg) == 1 and isinstance(arg[0], Seg) and arg[0].kind == "dec":
+                    t = arg[0].term
+                    t = z3.ZeroExt(64 - t.size(), t) if is_sym(t) and t.size() < 64 else t
+                    same_val = (t == z3.ZeroExt(32, val)) if is_sym(t) and t.size() == 64 else (z3.BitVecVal(t, 32) == val if isinstance(t, int) else False)
+                    bad = b_or(bad, b_and(gg, z3.Not(z3.And(some, same_val))))
+                elif all(isinstance(x, int) for x in arg):
+                    if arg == default:
+                        bad = b_or(bad, b_and(gg, some))
+                    else:
+                        txt = "".join(map(chr, arg))
+                        ok_ = z3.And(some, val == int(txt)) if txt.isdigit() and int(txt) < (1 << 32) else False
+                        bad = b_or(bad, b_and(gg, z3.Not(ok_) if ok_ is not False else True))
+                else:
+                    bad = b_or(bad, gg)
+        res, m = B.solve("thread-count-emission:" + profile, list(cr.assume), bad)
+        n += 1
+        if res == z3.sat:
+            is_some = eval_guard(m, some)
+            v = m.eval(val, model_completion=True).as_long()
+            text = ("-threads %d -true" % v) if is_some else "-true"
+            d = B.ctx.run_native([text], "debug" if profile == "dev" else "release")[0]
+            sch = d.get("scheme", "")
+            tail = sch[sch.rfind("(lipe-getopt-required-attrs)") + len("(lipe-getopt-required-attrs)"):].split("))")[0].strip()
+            want = str(v) if is_some else "(lipe-getopt-thread-count)"
+            if tail == want or tail + ")" == want:
+                rep.inconclusive.append("thread-count emission witness %r does not reproduce (%s)" % (text, profile))
+            else:
+                rep.violation("options:thread-count-emission", "%r: the scan call is emitted with thread argument %r, expected %s (%s)" % (text, tail, want, profile),
+                              dict(input=text, expected=want, profile=profile))
+    return n
 
 
 def report(B, rep, cname, a, b):
@@ -202,5 +291,10 @@ def replay(ctx, path):
         print("a=%r -> %s | %s\nb=%r -> %s" % (rp["a"], d[0].get("opts"), d[0].get("tree") or d[0].get("parse"), rp["b"], d[1].get("tree") or d[1].get("parse")))
         return 1
     d = ctx.run_native([rp["input"]], "debug")[0]
+    if "expected" in rp:
+        sch = d.get("scheme", "")
+        tail = sch[sch.rfind("(lipe-getopt-required-attrs)") + len("(lipe-getopt-required-attrs)"):].split("))")[0].strip()
+        print("input=%r -> thread argument of the scan call: %r, expected %s" % (rp["input"], tail, rp["expected"]))
+        return 0 if tail in (rp["expected"], rp["expected"][:-1]) else 1
     print("input=%r -> %s" % (rp["input"], d.get("parse")))
     return 1 if d.get("parse") == "panic" else 0
